@@ -19,6 +19,10 @@
      device (env)  DevAnswer       serve the oldest received request, emit the reply
                    DevNotify(n)    change a value, emit an unsolicited value-changed packet
 
+   Not modelled: the connection phase (TOC download, extended types, first fetch of all values) -- the
+   real code runs it before every recorded execution; its extended-type outcome is judged by the
+   monitor directly (ParamProtoProps!ExtClause).  Disconnects, retransmission timers, protocol V1.
+
    Bug = "cmdOnly"  the one-shot callbacks of persistent_store/clear/get_state/get_default_value
                     match on channel and command byte only (the code as it is today)
          "cmdId"    ... on command byte and parameter index (a partial repair)
